@@ -1182,6 +1182,32 @@ def run_check(pid: str, tier: str, seed: int, replay: Optional[str], plan: Dict[
             sc["src"] = "random"
             scs.append(sc)
             labels.append("random")
+    # ---- pinned histories: the sequences the claims are about, on a few seeded architectures of every kind (always run)
+    if pid == "C02":
+        pinned = [["fwd_n", "copy", "export!"], ["fwd_n", "load", "fwd_n", "export!"], ["fwd_g", "data", "export!"],
+                  ["export!", "sgd_net", "export!"], ["export!", "sgd_net", "sgd_net", "export!", "sgd_all", "export!"],
+                  ["to_hard", "fwd_g", "copy", "to_eval", "fwd_n", "data", "export!", "sgd_net", "to_eval", "fwd_n", "export!"]]
+    else:
+        pinned = [["fwd_n", "copy", "fwd_n"], ["fwd_n", "load", "fwd_n"], ["fwd_n", "data", "fwd_n"], ["fwd_g", "copy", "fwd_g"],
+                  ["to_hard", "fwd_n", "copy", "fwd_n"], ["to_hard", "fwd_g", "data", "to_eval", "fwd_n", "load", "fwd_n"],
+                  ["fwd_n", "sgd_net", "to_eval", "fwd_n", "copy", "fwd_n"], ["to_ghard", "fwd_n", "to_eval", "fwd_n", "data", "fwd_g"]]
+    prng = random.Random(seed + 4242)
+    for k in range(plan.get("n_pinned_archs", 4)):
+        dim = 1 if k % 3 == 2 else 2
+        pc = pid == "C05" and k % 2 == 1
+        arch = random_mps_arch(prng, 6, dim, False)
+        while pc and not pc_ok(arch):
+            arch = random_mps_arch(prng, 6, dim, False)
+        cfg_ = {"pin": [2, 4, 8], "pa": [8, 2, 4], "pw": [0, 4, 8] if pc else [4, 8, 2], "wt": "pc" if pc else "pl"}
+        build_no += 1
+        opts = _options(pid, cfg_, prng, dim=dim)
+        opts.update({"mode": "eval", "gumbel": False, "full": False})
+        for j, h in enumerate(pinned):
+            sc = {"arch": arch, "cfg": cfg_, "sel": None}
+            sc.update(opts)
+            sc.update({"hist": list(h), "order": "fe", "seed": build_no * 1000 + j, "src": "pinned-histories"})
+            scs.append(sc)
+            labels.append("pinned-histories")
     # ---- full_cost = True on networks with fixed (excluded) layers: finding F65, replayed only while it is listed
     if pid == "C05":
         fam = []
